@@ -50,22 +50,35 @@ def missing_tasks(ctx, tasks, outs, done):
     for o in outs:
         used.update((o.get("stats") or {}).get("modular_calls", []) or [])
     have = set(done)
+    own_keeps = {}
     for t in tasks:
         if getattr(t, "kind", "") == "function" and t.fn and ctx.prog.has_func(t.fn):
-            have.add(ctx.prog.func(t.fn).short)
+            fn = ctx.prog.func(t.fn).short
+            if t.keep is None:
+                have.add(fn)
+            else:
+                own_keeps.setdefault(fn, []).append(t.keep)
     new = []
     reg = registry(ctx)
     unknown = []
+    from .driver import Task
     for fn in sorted(used - have - SKIP):
         done.add(fn)
         variants = reg.get(fn)
         if not variants:
-            unknown.append(fn)
+            if fn not in own_keeps:
+                unknown.append(fn)
             continue
+        mine = own_keeps.get(fn)
         for name, ts in sorted(variants.items()):
             base = ts[0]
-            from .driver import Task
-            t = Task(name, base.fn, keep=union_keep(ts), **dict(base.kw))
+            uk = union_keep(ts)
+            if mine:
+                # the property has a task for this function that keeps only some clauses: the closure adds the others
+                keep = (lambda n, _u=uk, _m=mine: (_u is None or _u(n)) and not any(k(n) for k in _m))
+            else:
+                keep = uk
+            t = Task(name, base.fn, keep=keep, **dict(base.kw))
             t.closure = True
             new.append(t)
     return new, unknown
